@@ -169,20 +169,21 @@ class Evaluator(object):
             b = self.live(self._inst(s['to_variable_name']))
             u = self.live(self._inst(s['using_variable_name']))
             rel = int(s['rel_id'][1:])
-            if s.get('phrase'):
-                raise Discard('using-form with a phrase')
+            # `relate a to b across Rn.'p' using l`: l is what a reaches across Rn.'p', and b is what l reaches across Rn.'p'
+            # (the phrase tells the two halves of a reflexive linked association apart; elsewhere it is empty)
+            phrase = (s.get('phrase') or '').replace("'", '')
             try:
                 if t == 'RelateUsingNode':
                     # check both halves before touching anything: an associative link is created as a whole
                     if self.sh.partners_any(u, rel):
                         raise Discard('link instance already in use')
-                    r1 = self.sh.relate(a, u, rel, '')
-                    r2 = self.sh.relate(u, b, rel, '')
+                    r1 = self.sh.relate(a, u, rel, phrase)
+                    r2 = self.sh.relate(u, b, rel, phrase)
                     if 'noop' in (r1, r2):
                         raise Discard('relate of an already related pair')
                 else:
-                    self.sh.unrelate(a, u, rel, '')
-                    self.sh.unrelate(u, b, rel, '')
+                    self.sh.unrelate(a, u, rel, phrase)
+                    self.sh.unrelate(u, b, rel, phrase)
             except Rejected as r:
                 raise Discard('rejected %s (%s)' % (t, r.kind))
         elif t in ('SelectFromNode', 'SelectFromWhereNode'):
